@@ -9,6 +9,8 @@
 (*   Profile "forms":  NNames names, small values, every way of writing    *)
 (*       attrs / defaults / keywords in the tag, <= MaxEntries entries.    *)
 (*   Profile "names":  attribute names with characters HTML cannot carry.  *)
+(*   Profile "repeat": every sequence of <= MaxKw keywords over 3 names    *)
+(*       (value = position), on top of every subset of attrs.              *)
 (***************************************************************************)
 EXTENDS HtmlAttrs, TLC, Json, IOUtils
 
@@ -34,14 +36,16 @@ AllNames == <<"class", "@click", "data-id">>
 NameSeq == CASE Profile = "values" -> <<"class">>
              [] Profile = "forms"  -> SubSeq(AllNames, 1, NNames)
              [] Profile = "names"  -> <<"id">>
+             [] Profile = "repeat" -> AllNames
 NameIdx(n) == CHOOSE i \in 1..Len(NameSeq) : NameSeq[i] = n
 \* names that cannot / need not come back letter for letter, and unusual but legal ones
 OddNames == {"x y", "a=b", "a/b", "a\tb", "a\nb", "on click=alert(1) x", "", " ",
              "a<b", "a\"b", "a'b", "a&b", "a>b", "x y>z",
              ":cls", "@a.b", "v-on:a", "x_1", "é"}
 
-DVals == IF Profile = "values" THEN ValsFull ELSE IF Profile = "forms" THEN ValsSmall ELSE {S("v"), S("\"q"), T, N}
-KVals == IF Profile = "values" THEN KwFull ELSE IF Profile = "forms" THEN KwSmall ELSE {S("k")}
+DVals == CASE Profile = "values" -> ValsFull [] Profile = "forms" -> ValsSmall
+           [] Profile = "repeat" -> {S("base")} [] OTHER -> {S("v"), S("\"q"), T, N}
+KVals == CASE Profile = "values" -> KwFull [] Profile = "forms" -> KwSmall [] OTHER -> {S("k")}
 
 \* fa / fd: how attrs / defaults are written.  "pos" positional, "kw" attrs=var before the other
 \* keywords, "kwlast" after them, "agg" attrs:name=var per entry, "spread" inside a ...dict,
@@ -53,6 +57,7 @@ FormPairs ==
         <<"kw", "agg">>, <<"spread", "spread">>, <<"spread", "kw">>, <<"posnone", "pos">>,
         <<"absent", "absent">>, <<"absent", "agg">>}
   ELSE IF Profile = "names" THEN {<<"pos", "pos">>, <<"kw", "kw">>, <<"spread", "spread">>}
+  ELSE IF Profile = "repeat" THEN {<<"pos", "absent">>, <<"kwlast", "absent">>}
   ELSE {<<"pos", "pos">>}
 Vias == IF Profile = "forms" THEN {"var", "lit", "spread"} ELSE {"var"}
 \* a keyword value may be written as a template literal only if that does not change its meaning
@@ -79,7 +84,8 @@ AddAttr == /\ fa \notin {"absent", "posnone"} /\ c.kws = <<>> /\ Size < MaxEntri
                 /\ c' = [c EXCEPT !.attrs = Append(@, E(n, v))]
            /\ UNCHANGED <<fa, fd, vias>>
 AddKw == /\ Len(c.kws) < MaxKw /\ Size < MaxEntries
-         /\ \E n \in SeqRange(NameSeq), v \in KVals, via \in Vias :
+         /\ \E n \in SeqRange(NameSeq), via \in Vias :
+            \E v \in (IF Profile = "repeat" THEN {S("k" \o ToString(Len(c.kws) + 1))} ELSE KVals) :
               /\ via = "lit" => LitOk(v)
               /\ c' = [c EXCEPT !.kws = Append(@, E(n, v))]
               /\ vias' = Append(vias, via)
@@ -113,30 +119,6 @@ ASSUME LawNameClasses ==
 LawOverride == OverrideLaw(c)
 LawAppend == AppendLaw(c)
 
-(* ---- named deviations of the current code (KNOWN_FINDINGS) -------------- *)
-KwOf(n) == Vals(SelectSeq(c.kws, LAMBDA e : e.n = n))
-\* append_attributes does `old += " " + new` on the raw values: a number on either side raises.
-\* (Repeated keywords are first joined among themselves with str(), so two or more keywords of a
-\* name form a string before they meet the base value.)
-DevNumAppend == \E n \in SeqRange(Names(c)) :
-                  /\ Len(Base(c, n)) = 1 /\ Len(KwOf(n)) >= 1
-                  /\ \A i \in 1..Len(Parts(c, n)) : Textual(Parts(c, n)[i])
-                  /\ \/ Base(c, n)[1].t = "num"
-                     \/ Len(KwOf(n)) = 1 /\ KwOf(n)[1].t = "num"
-\* attribute names are entity-escaped but otherwise written as they are
-DevEmitText(items) ==
-  LET its == SelectSeq(items, LAMBDA it : it.kind \in {"bare", "val"}) IN
-  JoinSp([i \in 1..Len(its) |-> EmitOne([its[i] EXCEPT !.n = Escape(@)],
-                                         IF its[i].kind = "val" THEN CHOOSE v \in its[i].vals : TRUE ELSE "")])
-NoDev == [key |-> "", err |-> "", attrs |-> <<>>]
-Dev(items) ==
-  IF DevNumAppend THEN [key |-> "append-number:TypeError", err |-> "TypeError", attrs |-> <<>>]
-  ELSE IF /\ \E i \in 1..Len(items) : items[i].cls = "unrep" /\ items[i].kind \in {"bare", "val"}
-          /\ \A i \in 1..Len(items) : Cardinality(items[i].vals) <= 1 /\ items[i].kind # "zone"
-  THEN [key |-> "attr-name-unrepresentable:written-unchecked", err |-> "",
-        attrs |-> ParseAttrs(DevEmitText(items)).attrs]
-  ELSE NoDev
-
 (* ---- export ------------------------------------------------------------- *)
 SetToSeq(s) == LET RECURSIVE R(_)
                    R(x) == IF x = {} THEN <<>> ELSE LET e == CHOOSE e \in x : TRUE IN <<e>> \o R(x \ {e})
@@ -149,7 +131,7 @@ CaseOK ==
   /\ Serialize(ToJson([profile |-> Profile, defaults |-> c.defaults, attrs |-> c.attrs, kws |-> c.kws,
                        vias |-> vias, fa |-> fa, fd |-> fd,
                        items |-> [i \in 1..Len(its) |-> ItemJ(its[i])],
-                       err |-> SetToSeq(ErrOk(its)), dev |-> Dev(its)]) \o "\n",
+                       err |-> SetToSeq(ErrOk(its)), dev |-> DevAttrs(c, its)]) \o "\n",
                IOEnv.OUT, [format |-> "TXT", charset |-> "UTF-8",
                            openOptions |-> <<"WRITE", "CREATE", "APPEND">>]).exitValue = 0
 =============================================================================
